@@ -163,7 +163,8 @@ def rule_f3(chk: Check, ix: Index):
     from ..pyflow import stmt_paths
     import types as _types
     F = constfold.fold_tokenize()
-    paths = stmt_paths(g.node.body, split_bool=True)
+    from ..fprogs import inline_state_flags
+    paths = stmt_paths(inline_state_flags(g.node), split_bool=True)
     SAMPLES = ["(", "[", "{", "$(", "@(", "![", "${", "$[", "@$(", "!(", ")", "]", "}", ":", ":=", "->", "+", "=", "==", ",", ";", ".", "...",
                "|", "&&", "**=", "<", "@", "!", "?", "??", "$"]
 
@@ -433,6 +434,27 @@ def rule_f5(chk: Check, ir, ix: Index, F):
         raise AnalysisError("F7: the branch that enters ModeInColon was not found")
 
 
+def rule_f9(chk: Check, ir):
+    """F9: an f-string may be empty (`f""`, also inside a concatenation or a field): what stands between FSTRING_START and
+    FSTRING_END in the grammar must be able to match nothing."""
+    from ..ir import Opt, Rep, Tok
+    n = 0
+    for name, r in ir.rules.items():
+        for i, a in enumerate(r.alts):
+            kinds = [it.item.name if isinstance(it.item, Tok) else None for it in a.items]
+            if "FSTRING_START" in kinds and "FSTRING_END" in kinds:
+                lo, hi = kinds.index("FSTRING_START"), kinds.index("FSTRING_END")
+                between = [it.item for it in a.items[lo + 1:hi]]
+                n += 1
+                chk.count("F9-empty-fstring")
+                ok = all((isinstance(x, Rep) and x.min == 0) or isinstance(x, Opt) for x in between)
+                chk.require(ok, "F9-empty-fstring", f"{name}", str(a.pos),
+                            f"`{a}` requires at least one part between the opening and the closing quote: `f\"\"` (and any concatenation or "
+                            f"field containing it) is a syntax error here and valid Python")
+    if n == 0:
+        raise AnalysisError("F9: no grammar alternative spans FSTRING_START .. FSTRING_END")
+
+
 def rule_f8(chk: Check, ix: Index, ir):
     """F8: the mode stack is a stack — every read of an entry of `end_progs` reads the innermost one (index -1); with nested
     strings (an f-string inside a replacement field of another) any other index answers for the wrong string.
@@ -508,6 +530,7 @@ def run(chk: Check):
     rule_f4(chk, repo.ir_x(), typed.run())
     rule_f5(chk, repo.ir_x(), ix, F)
     rule_f8(chk, ix, repo.ir_x())
+    rule_f9(chk, repo.ir_x())
     from .c01 import rule_kind_guard
     rule_kind_guard(chk)
     from .c12 import rule_z2_z3
